@@ -81,14 +81,17 @@ def slots(max_threads, flags):
     exp_tracked = sum(1 for i in range(3) if (flags >> (2 * i)) & 1)
     return ok and len(runner.threads) == exp_tracked
 
+def _prio(kind_i, nq, pos, n, parent_running):
+    kind_i = pick(kind_i, 0, 1); nq = pick(nq, 0, 3); pos = pick(pos, 0, 3); n = pick(n, 1, 2); parent_running = pick(parent_running, 0, 1)
+    with NoTracing():
+        return priority(["mem", "sqlite"][kind_i], nq, pos, n, bool(parent_running))
+
 def prio(kind_i: int, nq: int, pos: int, n: int, parent_running: int) -> bool:
     """
     pre: 0 <= kind_i <= 1 and 0 <= nq <= 3 and 0 <= pos <= 3 and 1 <= n <= 2 and 0 <= parent_running <= 1
     post: _
     """
-    kind_i = pick(kind_i, 0, 1); nq = pick(nq, 0, 3); pos = pick(pos, 0, 3); n = pick(n, 1, 2); parent_running = pick(parent_running, 0, 1)
-    with NoTracing():
-        return priority(["mem", "sqlite"][kind_i], nq, pos, n, bool(parent_running))
+    return _prio(kind_i, nq, pos, n, parent_running)
 
 def slot_accounting(max_threads: int, flags: int) -> bool:
     """
@@ -104,7 +107,7 @@ def prio_twin(nq: int, pos: int) -> bool:
     pre: 0 <= nq <= 3 and 0 <= pos <= 3
     post: _
     """
-    prio(0, nq, pos, 1, 1)
+    _prio(0, nq, pos, 1, 1)
     return False
 
 def canary_fifo_only(nq: int) -> bool:
@@ -117,7 +120,7 @@ def canary_fifo_only(nq: int) -> bool:
     orig = bo.BaseOrchestrator.get_blocking_invocations
     bo.BaseOrchestrator.get_blocking_invocations = lambda self, n: iter(())
     try:
-        return prio(0, nq, 3, 1, 1)
+        return _prio(0, nq, 3, 1, 1)
     finally:
         bo.BaseOrchestrator.get_blocking_invocations = orig
 '''
